@@ -1298,6 +1298,24 @@ theorem eval_tree_pointwise_total (chunk : List Col) (n : Nat) (hwf : ChunkWF ch
     (evalK chunk n e).1.map Col.abs = specEval (chunk.map Col.abs) n e :=
   eval_tree_pointwise chunk n hwf e (evalK_no_tags chunk n e)
 
+/-- CASE with several WHEN branches: the nested `if`s (first WHEN outermost) give, on every row, the
+result of the FIRST branch whose condition is TRUE. -/
+theorem case_first_true_wins {α} (bs : List (Option Bool × Option α)) (el : Option α) :
+    caseS bs el = firstTrue bs el := by
+  induction bs with
+  | nil => rfl
+  | cons b rest ih =>
+    obtain ⟨c, r⟩ := b
+    simp only [caseS, firstTrue, ih]
+    cases c with
+    | none => simp [specSelect]
+    | some v => cases v <;> simp [specSelect]
+
+/-- `specEval` of the desugaring is the row-wise CASE of the first branch over the rest. -/
+theorem specEval_caseOf_cons (chunk : List SCol) (n : Nat) (c r : KExpr) (rest : List (KExpr × KExpr))
+    (el : KExpr) :
+    specEval chunk n (caseOf ((c, r) :: rest) el) = specEval chunk n (.ite c r (caseOf rest el)) := rfl
+
 /-- K for LIKE — holds in full since /repo 1ee6bdb (`like_to_regex` escapes literal characters and
 sets `(?s)`): SQL LIKE on every non-NULL row, NULL on NULL rows, for every pattern; no pattern
 makes the kernel fail. -/
